@@ -8,7 +8,7 @@ Start addresses are in units of the granularity, lengths always in bytes.
 import struct
 
 SEGNAMES = {0: '<undefined>', 1: 'CODE', 2: 'DATA', 3: 'IDATA', 4: 'XDATA', 5: 'YDATA', 6: 'BDATA',
-            7: 'IO', 8: 'REG', 9: 'ROMDATA'}
+            7: 'IO', 8: 'REG', 9: 'ROMDATA', 10: 'EEDATA'}
 # implicit granularity of short-header records (processor type's code granularity, rounded up to 2^k)
 GRAN2 = {0x36, 0x70, 0x71, 0x72, 0x74, 0x75, 0x77, 0x12, 0x6d, 0x3b, 0x1a, 0x1b, 0x1c, 0x1d, 0x4b, 0x0a, 0x5a, 0x4f}
 GRAN4 = {0x09, 0x76, 0x7d, 0x7e, 0x7f, 0x5c}
